@@ -8,6 +8,7 @@ mod keypool;
 mod refmodel;
 mod rng;
 mod selftest;
+mod texttypes;
 mod util;
 
 fn main() {
